@@ -6,7 +6,7 @@
 //
 // Input: leap status code, update interval as a wire float (exponent:coefficient), and the age of the
 // reference time in milliseconds relative to "now" (negative = in the future).  Because the real clock
-// advances between building the report and the call, ages closer than 2 s to a decision boundary are
+// advances between building the report and the call, ages closer than 20 s to a decision boundary are
 // not asserted either way.
 use super::*;
 use chrony_candm::common::{ChronyAddr, ChronyFloat};
@@ -45,7 +45,7 @@ fn eight_intervals_ms(interval: (i32, i32)) -> i128 {
     if sh >= 0 { c << sh } else { c >> (-sh) }
 }
 
-const MARGIN_MS: i128 = 2000;
+const MARGIN_MS: i128 = 20_000;
 
 fn failing_clauses(leap: u16, interval: (i32, i32), age_ms: i64) -> Vec<&'static str> {
     let mut bad = Vec::new();
@@ -138,8 +138,8 @@ fn verif_search_status() {
         for &coef in &coefs {
             let th = eight_intervals_ms((exp, coef));
             let th64 = th.min(40 * 365 * 86_400_000) as i64;
-            let ages: [i64; 14] = [-86_400_000, -3_600_000, -60_000, -5_000, -2_500,
-                                   0, 1, 999, th64 / 2, (th64 - 3_000).max(0), th64 + 3_000, th64 + 60_000, 2 * th64 + 10_000,
+            let ages: [i64; 14] = [-86_400_000, -3_600_000, -120_000, -60_000, -25_000,
+                                   0, 1, 999, th64 / 2, (th64 - 30_000).max(0), th64 + 30_000, th64 + 120_000, 2 * th64 + 60_000,
                                    40 * 365 * 86_400_000];
             for &leap in &leaps {
                 for &age in &ages {
